@@ -117,6 +117,29 @@ def persistent_program(sg, reps):
                          + [bn1.running_mean.data, bn1.running_var.data, bn2.running_mean.data, bn2.running_var.data]))
     return digs
 
+_W0 = {dt: (np.sin(np.arange(6) * 0.8).reshape(2, 3) * 0.5).astype(dt) for dt in (np.float32, np.float64)}
+_B0 = {dt: np.array([0.1, -0.2], dtype=dt) for dt in (np.float32, np.float64)}
+
+def train_from_arrays_program(sg, reps):
+    """a seeded program that starts from fixed ndarrays through the `synapgrad.tensor` factory (torch.tensor semantics: a copy),
+    draws its data, trains a few optimizer steps - run `reps` times in one process: same bits every time"""
+    digs = []
+    for r in range(reps):
+        out = []
+        for dt in (np.float32, np.float64):
+            sg.manual_seed(77)
+            w = sg.tensor(_W0[dt], requires_grad=True, dtype=dt); b = sg.tensor(_B0[dt], requires_grad=True, dtype=dt)
+            x = sg.Tensor(np.asarray(sg.randn(4, 3).data, dtype=dt))
+            for opt in (sg.optim.SGD([w, b], lr=0.1, momentum=0.9), sg.optim.Adam([w, b], lr=0.05)):
+                for _ in range(3):
+                    opt.zero_grad()
+                    y = sg.nn.functional.linear(x, w, b)
+                    (y * y).sum().backward()
+                    opt.step()
+            out += [w.data, b.data, w.grad.data]
+        digs.append(_dig(out))
+    return digs
+
 def fanout_program(sg):
     """one float32 tensor feeding seven branches whose gradient contributions differ by many orders of magnitude: the bits of
     x.grad depend on the ORDER in which the contributions are accumulated, which must not depend on object addresses"""
@@ -142,6 +165,7 @@ def table(L):
                 t["|".join(prog) + f"@{s}"] = run_program(sg, prog, s)
         t["fixed"] = fixed_program(sg, 5)
         t["fixed_persistent_layers"] = persistent_program(sg, 5)
+        t["fixed_train_from_arrays"] = train_from_arrays_program(sg, 3)
         from synapgrad.nn.utils import data as D
         labs = ["cat", "dog", "bird", "cat", "emu", "dog", "ant", "bird"]
         t["fixed_onehot_strings"] = [_dig([np.asarray(D.one_hot_encode(np.array(labs)))]), _dig([np.asarray(D.one_hot_encode(labs))])]
@@ -270,6 +294,10 @@ def run(tier, seed):
                           "case": {"kind": "process", "prog": k, "hashseed": hs, "junk": junk}})
     if len(set(base["fixed"])) != 1:
         viols.append({"kind": "fixed-program:depends-on-repetition", "detail": f"digests of 5 repetitions: {base['fixed']}", "case": {"kind": "fixed"}})
+    if len(set(base["fixed_train_from_arrays"])) != 1:
+        viols.append({"kind": "fixed-program:depends-on-repetition", "detail": "manual_seed; parameters = synapgrad.tensor(fixed ndarray); 3 SGD + 3 Adam steps - run 3 times "
+                      f"in one process: digests {base['fixed_train_from_arrays']} (the factory is documented to create a tensor FROM an array, like torch.tensor)",
+                      "case": {"kind": "fixed_train_from_arrays"}})
     if len(set(base["fixed_persistent_layers"])) != 1:
         viols.append({"kind": "fixed-program:depends-on-repetition", "detail": "eval-mode BatchNorm1d/2d + Linear + Conv2d + Dropout objects built once, the same batch pushed "
                       f"forward and backward 5 times: digests {base['fixed_persistent_layers']}", "case": {"kind": "fixed_persistent_layers"}})
@@ -280,7 +308,7 @@ def run(tier, seed):
            "rule": f"all {len(progs)} programs of length <= {L} over {len(LETTERS)} random-consuming letters x seeds {SEEDS}: run / re-seed / re-run in "
                    f"process (bitwise digests of every produced array, gradient and parameter); programs of length <= {Lw} again in {len(envs)} fresh "
                    "interpreters with PYTHONHASHSEED in {0,1,2,4242,...} with and without 10^5 junk allocations (identical digest tables); a fixed "
-                   "conv/pool/log_softmax forward+backward repeated 5 times, and eval-mode layer objects (BatchNorm1d/2d, Linear, Conv2d, Dropout) built once and driven forward+backward 5 times; each letter under the scripted random source twice (no draw bypasses "
+                   "conv/pool/log_softmax forward+backward repeated 5 times, and eval-mode layer objects (BatchNorm1d/2d, Linear, Conv2d, Dropout) built once and driven forward+backward 5 times, and a seeded training program starting from fixed ndarrays through synapgrad.tensor() run 3 times; each letter under the scripted random source twice (no draw bypasses "
                    "the generators manual_seed seeds); history independence: for every op family of both catalogues, all ordered pairs (A, B) over ~6 "
                    "near-miss configurations x 2 dtypes - B after A in one process must give the bits B gives in a fresh process; states = programs, transitions = letter executions"}
     return {"level": "model_checking", "violations": viols, "coverage": cov,
